@@ -84,6 +84,37 @@ func drawText(t *core.Tape, nTexts int) ap.Content {
 	return ap.Content(append([]byte{}, s...))
 }
 
+// textSource is how a caller comes by the text it hands to Set / Append / Add:
+// mostly a fresh slice, but callers also copy a value from one language to
+// another (`n.Set("fr", n.Get("en"))`) or pass the very same slice twice. The
+// container may keep the slice it is given, so two entries can share one
+// backing array; a later call must still leave the other entry's text alone.
+type textSource struct {
+	last ap.Content // the slice handed over by the previous mutating call
+}
+
+func (ts *textSource) draw(c *core.Ctx, n ap.NaturalLanguageValues, nTags, nTexts int) ap.Content {
+	t := c.Tape
+	switch t.Draw(8) {
+	case 0:
+		if len(n) > 0 {
+			// a text obtained from the container itself
+			v := n.Get(n[t.Draw(len(n))].Ref)
+			c.Probe("text_aliases_an_entry")
+			ts.last = v
+			return v
+		}
+	case 1:
+		if ts.last != nil {
+			c.Probe("same_slice_passed_twice")
+			return ts.last
+		}
+	}
+	v := drawText(t, nTexts)
+	ts.last = v
+	return v
+}
+
 func firstWith(model []pair, tag ap.LangRef) (pair, bool) {
 	for _, p := range model {
 		if p.tag == tag {
@@ -136,6 +167,7 @@ func runHistory(c *core.Ctx) {
 		c.Logf("init literal+spare(%d) %s", spare, renderPairs(snapshot(n)))
 	}
 	model := snapshot(n)
+	ts := &textSource{}
 	maxOps := 12
 	if c.Tier == "thorough" {
 		maxOps = 40
@@ -146,10 +178,12 @@ func runHistory(c *core.Ctx) {
 		c.Rec.Ops++
 		switch t.Draw(6) {
 		case 0: // Set
-			tag, v := drawTag(t, nTags), drawText(t, nTexts)
+			tag, v := drawTag(t, nTags), ts.draw(c, n, nTags, nTexts)
 			c.Logf("Set(%q,%q)", string(tag), []byte(v))
 			_, had := firstWith(model, tag)
+			vc := ap.Content(append([]byte{}, v...)) // the text as it was when the call was made
 			_ = n.Set(tag, v)
+			v = vc
 			after := snapshot(n)
 			mutating++
 			if had {
@@ -160,25 +194,27 @@ func runHistory(c *core.Ctx) {
 			checkSet(c, model, after, n, tag, v)
 			model = after
 		case 1: // Append
-			tag, v := drawTag(t, nTags), drawText(t, nTexts)
+			tag, v := drawTag(t, nTags), ts.draw(c, n, nTags, nTexts)
 			c.Logf("Append(%q,%q)", string(tag), []byte(v))
 			if _, had := firstWith(model, tag); had {
 				c.Probe("append_repeated_tag")
 			}
+			vc := append([]byte{}, v...)
 			_ = n.Append(tag, v)
 			mutating++
-			want := append(append([]pair(nil), model...), pair{tag: tag, text: v})
+			want := append(append([]pair(nil), model...), pair{tag: tag, text: vc})
 			after := snapshot(n)
 			if !pairsEqual(after, want) {
 				c.Fail("model", "C19/Append/appends-one-entry-at-end", "after Append(%q,%q) on %s the list is %s, want %s", string(tag), []byte(v), renderPairs(model), renderPairs(after), renderPairs(want))
 			}
 			model = after
 		case 2: // Add
-			tag, v := drawTag(t, nTags), drawText(t, nTexts)
+			tag, v := drawTag(t, nTags), ts.draw(c, n, nTags, nTexts)
 			c.Logf("Add(%q,%q)", string(tag), []byte(v))
+			vc := append([]byte{}, v...)
 			n.Add(ap.LangRefValue{Ref: tag, Value: v})
 			mutating++
-			want := append(append([]pair(nil), model...), pair{tag: tag, text: v})
+			want := append(append([]pair(nil), model...), pair{tag: tag, text: vc})
 			after := snapshot(n)
 			if !pairsEqual(after, want) {
 				c.Fail("model", "C19/Add/appends-one-entry-at-end", "after Add(%q,%q) on %s the list is %s, want %s", string(tag), []byte(v), renderPairs(model), renderPairs(after), renderPairs(want))
